@@ -156,3 +156,26 @@ func commitmentScript(c []byte) []byte {
 // operation and is never executed (outputs above the script size limit are
 // unspendable).
 func padScript(n int) []byte { return manyOps(txscript.OP_NOP, n) }
+
+// paddedTrue returns an anyone-can-spend script of exactly n bytes (3 <= n <=
+// 525): a data push, OP_DROP, OP_1.  The lengths the factory uses sit around
+// the boundaries of the stored-script encodings (special-cased script sizes,
+// the one/two byte length prefix at 122/123 bytes, the push opcodes).
+func paddedTrue(n int) []byte {
+	var s []byte
+	switch {
+	case n-3 <= 75:
+		s = append(s, byte(n-3))
+		s = append(s, bytes.Repeat([]byte{0x42}, n-3)...)
+	case n-4 <= 255:
+		s = append(s, txscript.OP_PUSHDATA1, byte(n-4))
+		s = append(s, bytes.Repeat([]byte{0x42}, n-4)...)
+	default:
+		s = append(s, txscript.OP_PUSHDATA2, byte((n-5)&0xff), byte((n-5)>>8))
+		s = append(s, bytes.Repeat([]byte{0x42}, n-5)...)
+	}
+	return append(s, txscript.OP_DROP, txscript.OP_1)
+}
+
+var scriptLens = []int{4, 20, 21, 22, 23, 24, 25, 26, 33, 34, 35, 36, 65, 66, 67, 68, 78, 79, 80, 81, 119, 120, 121, 122, 123, 124, 125, 126, 127, 128, 129, 130,
+	250, 251, 252, 253, 254, 255, 256, 257, 258, 259, 260, 261, 300, 524, 525}
